@@ -218,8 +218,9 @@ Variable H : list N -> list N.
 Variable expected : N -> list N.
 Variable npieces : N.
 Variable psize : N -> N.
-Notation accept := (accept H expected npieces psize).
-Notation run := (run H expected npieces psize).
+Variable repaired : bool.
+Notation accept := (accept H expected npieces psize repaired).
+Notation run := (run H expected npieces psize repaired).
 
 (* a Data event that changes the store writes into a block that is NOT finished *)
 Lemma dv_write_unfinished : forall s p i b d s' x,
